@@ -138,6 +138,10 @@ let () =
          if !bad = None && Array.length iarr <> !idx then bad := Some "shape";
          Printf.printf "%s | %s\n" (Buffer.contents buf)
            (match !bad with None -> "oracle=ok" | Some w -> "oracle=fail@" ^ w))
+    | "par" :: _ ->
+      (* conversions on two threads at once give what they give alone (each instant's text is checked by the other
+         cases against the model) *)
+      Printf.printf "par bad=0 | %s\n" (if String.trim impl_line = "par bad=0" then "oracle=ok" else "oracle=fail@concurrent-conversions-differ")
     | "logt" :: ts ->
       (* the `time` member of a jsonl log line is the iso8601 rendering of the event's own instant, whatever was
          rendered before it on the same thread *)
